@@ -78,12 +78,12 @@ def ref_rows(ctx, d):
     return hits, holds
 
 
-def _eq_rel(ctx):
+def _eq_rel(ctx, rel_=None):
     """times are non-negative sums of positive beat lengths; a tempo given as a concrete number (channel 03) makes the code
     compute in doubles, so times are compared up to 1e-9 relative"""
     from fractions import Fraction
 
-    rel = Fraction(1, 10**9)
+    rel = Fraction(1, 10**9) if rel_ is None else rel_
 
     def eq(a, b):
         if a[0] != b[0] or a[-1] != b[-1]:
@@ -103,6 +103,10 @@ def check_read(ctx, label, m, d):
     ctx.check(label + ".holds.count", len(ll) == len(rl), note="%d vs %d" % (len(ll), len(rl)))
     ctx.check(label + ".hits.lane-time-sample", same_multiset(ctx, lh, rh, eq=eq), note="%r vs %r" % (lh[:3], rh[:3]))
     ctx.check(label + ".holds.lane-time-length-sample", same_multiset(ctx, ll, rl, eq=eq), note="%r vs %r" % (ll[:3], rl[:3]))
+    # twin facets with a coarse tolerance (0.01 %): their solver counterexamples survive the float replay
+    loose, _r = _eq_rel(ctx, F(1, 10**4))
+    ctx.check(label + ".hits.lane-time-sample{within-0.01%}", same_multiset(ctx, lh, rh, eq=loose))
+    ctx.check(label + ".holds.lane-time-length-sample{within-0.01%}", same_multiset(ctx, ll, rl, eq=loose))
     for i, r in enumerate(lh):
         ctx.observe("hit%d.t" % i, r[1])
     bt = col(m.bpms.df, "offset")
@@ -113,6 +117,23 @@ def check_read(ctx, label, m, d):
         ctx.check("%s.tempo-event%d.is-a-tempo-point" % (label, j), ctx.any(ctx.eq(v, prev), *[ctx.within(x, t, (x + t + 1) * rel, strict=False) for x in bt]))
         prev = v
     ctx.check(label + ".tempo.starts-at-0", ctx.any(*[ctx.eq(x, 0) for x in bt]))
+    # the tempo in force from a change on is the file's, wherever at least one whole measure follows before the next change
+    # (the tempo list is seated on measure lines: a change followed by less than a measure has its bpm stretched by design)
+    bv = col(m.bpms.df, "bpm")
+    segs = [(F(0), d["bpm0"])]
+    for pos, v in d["tempo"]:
+        if pos == segs[-1][0]:
+            segs[-1] = (pos, v)
+        else:
+            segs.append((pos, v))
+    for j, (pos, v) in enumerate(segs):
+        if j + 1 < len(segs) and segs[j + 1][0] - pos < 4:
+            continue
+        t = ref.ms_of(ctx, d, pos)
+        ctx.check("%s.tempo-in-force-from-position-%s" % (label, str(pos).replace("/", "_")),
+                  ctx.any(*([ctx.eq(v, segs[j - 1][1])] if j else []),  # (a change that repeats the tempo in force may be absent)
+                          *[ctx.all(ctx.within(x, t, (x + t + 1) * rel, strict=False), ctx.close(y, v) if not isinstance(v, int) else ctx.eq(y, v)) for x, y in zip(bt, bv)]),
+                  note="bpm %r expected at position %s" % (ctx.value(v), pos))
     # the tempo active at every object is the file's
     bpms = sorted(zip(bt, col(m.bpms.df, "bpm")), key=lambda p: 0) if False else list(zip(bt, col(m.bpms.df, "bpm")))
     h = d["header"]
